@@ -236,7 +236,7 @@ def st_spec(draw):
     if draw(st.sampled_from([False, False, True])):
         absent.append("temp")
     return {
-        "fmt": draw(st.sampled_from(["dict", "dict", "hdf5"])),
+        "fmt": draw(st.sampled_from(["dict", "dict", "hdf5", "basin"])),
         "n": draw(st.sampled_from([1, 2, 3, 5, 8, 13, 25])),
         "seed": draw(st.integers(0, 9999)),
         "absent": sorted(absent),
@@ -457,6 +457,23 @@ class Sim:
                 hw.store_metadata(meta())
                 for k in sorted(self.data):
                     hw.store_feature(k, self.data[k])
+        elif self.fmt == "basin":
+            # a thin file: one feature stored, everything else through a file basin
+            # whose definition lists no features; the reference ("fresh") dataset is
+            # an in-memory dataset with the same data and configuration
+            origin = self.dir / "origin.rtdc"
+            with RTDCWriter(origin) as hw:
+                hw.store_metadata(meta())
+                for k in sorted(self.data):
+                    hw.store_feature(k, self.data[k])
+            self.path = self.dir / "long.rtdc"
+            with RTDCWriter(self.path) as hw:
+                hw.store_metadata(meta())
+                k0 = sorted(self.data)[0]
+                hw.store_feature(k0, self.data[k0])
+                hw.store_basin(basin_name="origin", basin_type="file",
+                               basin_format="hdf5", basin_locs=[str(origin)],
+                               verify=False)
         self.ds = self.build()
         self.child = dclab.new_dataset(self.ds)
         self._child_mask = np.array(self.ds.filter.all).copy()
@@ -471,8 +488,8 @@ class Sim:
                 and np.array_equal(np.asarray(self.ds.filter.all), self.mask))
 
     # -- construction of datasets from the model state
-    def build(self):
-        if self.fmt == "hdf5":
+    def build(self, fresh=False):
+        if self.fmt == "hdf5" or (self.fmt == "basin" and not fresh):
             ds = dclab.new_dataset(self.path)
         else:
             ds = dclab.new_dataset({k: v.copy() for k, v in self.data.items()})
@@ -490,7 +507,7 @@ class Sim:
         return ds
 
     def fresh(self, child=False):
-        f = self.build()
+        f = self.build(fresh=True)
         if child:
             return dclab.new_dataset(f)
         return f
@@ -1032,7 +1049,7 @@ class Sim:
 
 
 def run_case(spec, rec):
-    d = boot.casedir() if spec["fmt"] == "hdf5" else None
+    d = boot.casedir() if spec["fmt"] in ("hdf5", "basin") else None
     sim = None
     try:
         sim = Sim(spec, rec, d)
